@@ -111,6 +111,14 @@ Theorem change_flag_sound : forall S e i r r', net_ok S -> snd (step S e) = fals
 Proof. exact step_flag_sound. Qed.
 Print Assumptions change_flag_sound.
 
+(* quiescence: a well-formed settled network in which every router has processed the current advertisement of each of
+   its neighbours (so that, the change flag being sound, no router has anything left to announce or fetch) holds the
+   shortest-path tables — the protocol cannot come to rest anywhere else *)
+Theorem dv_quiescent_is_converged : forall S,
+  net_ok S -> settled (topo_of S) = true -> fixedb S = true -> converged S = true.
+Proof. exact quiescent_is_converged. Qed.
+Print Assumptions dv_quiescent_is_converged.
+
 (* non-vacuity: a triangle 1-2-3 with a fourth router behind 3.  Router 4 disappears and 3 notices: the state is
    well formed and settled but not converged (1 and 2 still route to 4), three rounds later the routers are
    counting to infinity, and after INF + maxdist = 17 rounds the tables are the shortest-path tables. *)
@@ -126,7 +134,8 @@ Example c18_example :
   settled (topo_of S) = true /\ maxdist (topo_of S) = 1%nat /\ is_round (topo_of S) ex_round = true /\
   converged S = false /\
   map (fun r => aget 4 (rib_entries (rrib r))) (run S (concat (repeat ex_round 3))) = [Some (8, 3); Some (6, 1); Some (7, 2)] /\
-  converged (run S (concat (repeat ex_round 17))) = true.
+  converged (run S (concat (repeat ex_round 17))) = true /\
+  fixedb S = false /\ fixedb (run S (concat (repeat ex_round 17))) = true.
 Proof. vm_compute. repeat split; reflexivity. Qed.
 
 (* non-vacuity of asynchronous rounds: two routers; router 1 fetches, then router 2 processes the advertisement
